@@ -156,21 +156,24 @@ def distinguish (cs₁ cs₂ : List VCon) : Option (Nat × Nat × Rat) := Id.run
 /-! ### table cases -/
 
 structure Row where
-  dir : SepDir
-  st : SepType
-  gt : GapType
-  gap : SZ
+  sp0 : SepPair
   extra : Rat
-  base : Nat
-  prec : Nat
+  desc : String
   deriving Inhabited
 
-def baseTable (r : Row) : SepPair :=
-  let sp0 : SepPair := { src := 3, tgt := 8, tglfPrecision := r.prec }
-  let sp0 := if r.base == 1 then
+def baseTable (dir : SepDir) (st : SepType) (gt : GapType) (gap : SZ) (base prec : Nat) : SepPair :=
+  let sp0 : SepPair := { src := 3, tgt := 8, tglfPrecision := prec }
+  let sp0 := if base == 1 then
       (sp0.addSep .bdry .right .ineq (SZ.ofRat 3)).addSep .centre .up .eq (SZ.ofRat 4)
     else sp0
-  sp0.addSep r.gt r.dir r.st r.gap
+  sp0.addSep gt dir st gap
+
+def tfS : SepTransform → String
+  | .ident => "IDENT" | .rotate90cw => "ROTATE90CW" | .rotate90acw => "ROTATE90ACW" | .rotate180 => "ROTATE180"
+  | .flipv => "FLIPV" | .fliph => "FLIPH" | .flipmd => "FLIPMD" | .flipod => "FLIPOD"
+
+/-- is the value a multiple of 10^-p ? -/
+def isMultiple (p : Nat) (v : Rat) : Bool := (v * (pow10 p : Rat)).den == 1
 
 def fields? (t : Array String) (o : Nat) : Option (GapType × SepType × SZ × GapType × SepType × SZ) := do
   let a ← (t[o]?).bind gt?
@@ -220,8 +223,16 @@ def checkTable (c : Case) : CaseResult := Id.run do
   for l in c.get "I" do
     match sd? l[1]!, st? l[2]!, gt? l[3]!, sz? l[4]!, num? l[5]! with
     | some d, some s, some g, some gap, some e =>
-      rows := rows.push { dir := d, st := s, gt := g, gap := gap, extra := e, base := nat! l[6]!, prec := nat! l[7]! }
+      rows := rows.push { sp0 := baseTable d s g gap (nat! l[6]!) (nat! l[7]!), extra := e,
+                          desc := s!"{l[1]!} {l[2]!} {l[3]!} gap {szS gap} extra {ratToString e} base {l[6]!}" }
     | _, _, _, _, _ => return { verdict := .diverge s!"unparsable I line {l}" }
+  for l in c.get "P" do
+    match fields? l 1, num? l[7]! with
+    | some (xgt, xst, xgap, ygt, yst, ygap), some e =>
+      let sp : SepPair := { src := 3, tgt := 8, xgt := xgt, xst := xst, xgap := xgap, ygt := ygt, yst := yst,
+                            ygap := ygap, tglfPrecision := nat! l[8]! }
+      rows := rows.push { sp0 := sp, extra := e, desc := s!"pair [{fieldsS sp}] extra {ratToString e} prec {l[8]!}" }
+    | _, _ => return { verdict := .diverge s!"unparsable P line {l}" }
   -- C++ observations indexed by (row, tf)
   let mut implF : Array (Array (Option (GapType × SepType × SZ × GapType × SepType × SZ))) :=
     Array.replicate rows.size (Array.replicate 8 none)
@@ -241,7 +252,7 @@ def checkTable (c : Case) : CaseResult := Id.run do
   -- model vs C++: fields, constraints
   for ri in [0:rows.size] do
     let row := rows[ri]!
-    let sp0 := baseTable row
+    let sp0 := row.sp0
     for t in [0:8] do
       let tf := tfOf t
       let sp := sp0.transform tf
@@ -277,7 +288,7 @@ def checkTable (c : Case) : CaseResult := Id.run do
                          allHold cyt.toList (fun i => if i == 3 then s'.2 else t'.2)
             acc := acc.bump "equivariance.placements"
             if before != after then
-              acc := acc.specfail s!"transform_equivariant violated: row {ri} ({repr row.dir} {stS row.st} {gtS row.gt} gap {szS row.gap} extra {ratToString row.extra} base {row.base}) tf {repr tf}: src=({ratToString sx},{ratToString sy}) tgt=({ratToString tx},{ratToString ty}) satisfies original={before} but image satisfies transformed={after}; impl constraints before X {cx0.map vconS} Y {cy0.map vconS}, after X {cxt.map vconS} Y {cyt.map vconS}"
+              acc := acc.specfail s!"transform_equivariant violated: row {ri} ({row.desc}) tf {tfS tf}: src=({ratToString sx},{ratToString sy}) tgt=({ratToString tx},{ratToString ty}) satisfies original={before} but image satisfies transformed={after}; impl constraints before X {cx0.map vconS} Y {cy0.map vconS}, after X {cxt.map vconS} Y {cyt.map vconS}"
         | none => pure ()
     | none => pure ()
   -- compositions: C++ (t then t2) must equal C++ single transform comp(t2, t); and the model
@@ -285,18 +296,18 @@ def checkTable (c : Case) : CaseResult := Id.run do
     let r := nat! l[0]!; let t := nat! l[1]!; let t2 := nat! l[2]!
     let f := fields? l 3
     let row := rows[r]!
-    let spm := ((baseTable row).transform (tfOf t)).transform (tfOf t2)
+    let spm := (row.sp0.transform (tfOf t)).transform (tfOf t2)
     acc := acc.bump "compositions"
     if f != some (fieldsOf spm) then
       acc := acc.diverge s!"row {r} tf {t} then {t2}: fields impl {f.map fS} model [{fieldsS spm}]"
     let tc := tfIndex ((tfOf t2).comp (tfOf t))
     if f != implF[r]![tc]! then
-      acc := acc.specfail s!"transform_group violated: row {r} ({repr row.dir} {stS row.st} {gtS row.gt} gap {szS row.gap} base {row.base}): {repr (tfOf t)} then {repr (tfOf t2)} gives [{f.map fS}] but {repr (tfOf tc)} gives [{(implF[r]![tc]!).map fS}]"
+      acc := acc.specfail s!"transform_group violated: row {r} ({row.desc}): {tfS (tfOf t)} then {tfS (tfOf t2)} gives [{f.map fS}] but {tfS (tfOf tc)} gives [{(implF[r]![tc]!).map fS}]"
   -- TGLF lines
   for l in c.get "W" do
     let r := nat! l[0]!; let t := nat! l[1]!
     let row := rows[r]!
-    let sp := (baseTable row).transform (tfOf t)
+    let sp := row.sp0.transform (tfOf t)
     let mw := sp.writeTglf row.extra
     match tglfLines? l 2 with
     | none => acc := acc.diverge s!"row {r} tf {t}: unparsable W line {l}"
@@ -305,8 +316,11 @@ def checkTable (c : Case) : CaseResult := Id.run do
         acc := acc.diverge s!"row {r} tf {t}: writeTglf impl {iw.map (·.map TglfLine.render)} model {mw.map (·.map TglfLine.render)}"
       if iw.isNone then acc := acc.bump "tglf.throw"
       -- round trip of the C++ text through the (model) reader against the C++'s own constraints
-      match iw, implC[r]![t]! with
-      | some ls, some (cx, cy) =>
+      let p := row.sp0.tglfPrecision
+      let exact := isMultiple p sp.xgap.mag && isMultiple p sp.ygap.mag && isMultiple p row.extra
+      if exact then acc := acc.bump "tglf.exact"
+      match exact, iw, implC[r]![t]! with
+      | true, some ls, some (cx, cy) =>
         match readSepcos true ls with
         | none => acc := acc.diverge s!"row {r} tf {t}: reader rejects {ls.map TglfLine.render}"
         | some m2 =>
@@ -316,12 +330,12 @@ def checkTable (c : Case) : CaseResult := Id.run do
           match distinguish cx.toList rx, distinguish cy.toList ry with
           | none, none => pure ()
           | wx, wy =>
-            acc := acc.specfail s!"tglf_roundtrip violated: row {r} ({repr row.dir} {stS row.st} {gtS row.gt} gap {szS row.gap} extra {ratToString row.extra} base {row.base}) tf {repr (tfOf t)}: written {ls.map TglfLine.render} reads back as X {vconsS rx} Y {vconsS ry} but the pair generates X {cx.map vconS} Y {cy.map vconS}; witness offset x {repr wx} y {repr wy}"
-      | _, _ => pure ()
+            acc := acc.specfail s!"tglf_roundtrip violated: row {r} ({row.desc}) tf {tfS (tfOf t)}: written {ls.map TglfLine.render} reads back as X {vconsS rx} Y {vconsS ry} but the pair generates X {cx.map vconS} Y {cy.map vconS}; witness offset x {repr wx} y {repr wy}"
+      | _, _, _ => pure ()
   -- cardinal queries
   for l in c.get "Q" do
     let r := nat! l[0]!
-    let sp := baseTable rows[r]!
+    let sp := rows[r]!.sp0
     let b (x : Bool) := if x then "1" else "0"
     let cdS := match sp.getCardinalDir with
       | some .east => "EAST" | some .south => "SOUTH" | some .west => "WEST" | some .north => "NORTH"
@@ -329,6 +343,11 @@ def checkTable (c : Case) : CaseResult := Id.run do
     let m := #[b sp.isVerticalCardinal, b sp.isHorizontalCardinal, b sp.isVAlign, b sp.isHAlign, b sp.isCardinal, cdS]
     if l.extract 1 7 != m then
       acc := acc.diverge s!"row {r}: cardinal queries impl {l.extract 1 7} model {m}"
+  for l in c.get "R" do
+    let r := nat! l[0]!
+    let sp := rows[r]!.sp0.roundGapsUpAbs
+    if sz? l[1]! != some sp.xgap || sz? l[2]! != some sp.ygap then
+      acc := acc.diverge s!"row {r}: roundGapsUpAbs impl {l.extract 1 3} model {szS sp.xgap} {szS sp.ygap}"
   for l in c.get "D" do
     match sd? l[0]!, sd? l[1]!, sd? l[3]!, sd? l[4]! with
     | some d, some n, some lw, some cs =>
@@ -617,6 +636,72 @@ def checkTglf (implFixed : Bool) (fine : Bool) (c : Case) : CaseResult := Id.run
   acc := acc.bump "tglf.constraints" (g1x.length + g1y.length)
   return acc.result nontrivial
 
+/-! ### Graph::rotate90cw / rotate90acw / rotate180 -/
+
+def checkRotate (implFixed : Bool) (c : Case) : CaseResult := Id.run do
+  let mut acc : Acc := {}
+  let mut nodes : Array NodeG := #[]
+  for l in c.get "node" do
+    match node? l with
+    | some n => nodes := nodes.push n
+    | none => return { verdict := .diverge "unparsable node line" }
+  let mut m : SepMatrix := .empty
+  for l in c.get "op" do
+    let some op := op? l | return { verdict := .diverge s!"unparsable op line {l}" }
+    m := (op.step implFixed m).1
+  let size : Nat → Dim → Rat := fun id d =>
+    match nodes[id]? with
+    | some n => (match d with | .x => n.w | .y => n.h)
+    | none => 0
+  let some rl := c.get1 "rotate" | return { verdict := .diverge "no rotate line" }
+  let tf := tfOf (nat! rl[0]!)
+  acc := acc.bump ("rotate." ++ tfS tf)
+  let pts (key : String) : Array (Rat × Rat) :=
+    (c.get key).filterMap fun l => match num? l[1]!, num? l[2]! with
+      | some x, some y => some (x, y)
+      | _, _ => none
+  let bpos := pts "bpos"; let apos := pts "apos"
+  if bpos.size != nodes.size || apos.size != nodes.size then return { verdict := .diverge "pos lines missing" }
+  -- centres move by the plane map of the transform
+  for i in [0:nodes.size] do
+    let (x, y) := bpos[i]!
+    if tf.applyPt x y != apos[i]! then
+      acc := acc.diverge s!"node {i}: ({ratToString x},{ratToString y}) rotated by {tfS tf} to ({ratToString apos[i]!.1},{ratToString apos[i]!.2}), plane map says ({ratToString (tf.applyPt x y).1},{ratToString (tf.applyPt x y).2})"
+  -- routes
+  let br := c.get "broute"; let ar := c.get "aroute"
+  if br.size != ar.size then acc := acc.diverge "route count changed"
+  else
+    for i in [0:br.size] do
+      match nums? (br[i]!.extract 1 br[i]!.size), nums? (ar[i]!.extract 1 ar[i]!.size) with
+      | some b, some a =>
+        let ok := a.size == b.size && (List.range (b.size / 2)).all fun j =>
+          tf.applyPt b[2*j]! b[2*j+1]! == (a[2*j]!, a[2*j+1]!)
+        if !ok then acc := acc.diverge s!"route {i} not mapped by the plane map of {tfS tf}"
+      | _, _ => acc := acc.diverge "unparsable route"
+  -- constraints: model
+  let get (k : String) := (c.get1 k).bind (vcons? · 0)
+  match get "bcx", get "bcy", get "acx", get "acy" with
+  | some bcx, some bcy, some acx, some acy =>
+    if bcx != m.generateSeparationConstraints .x size || bcy != m.generateSeparationConstraints .y size then
+      acc := acc.diverge s!"constraints before rotation differ from model: X {vconsS bcx} Y {vconsS bcy}"
+    let m' := m.transform tf
+    if acx != m'.generateSeparationConstraints .x size || acy != m'.generateSeparationConstraints .y size then
+      acc := acc.diverge s!"constraints after {tfS tf} differ from model: impl X {vconsS acx} Y {vconsS acy} model X {vconsS (m'.generateSeparationConstraints .x size)} Y {vconsS (m'.generateSeparationConstraints .y size)}"
+    -- the property on the C++'s own outputs: each pair is satisfied before iff it is satisfied after
+    let keys := ((bcx ++ bcy ++ acx ++ acy).map fun c => (min c.left c.right, max c.left c.right)).eraseDups
+    let mut nsat := 0
+    for (a, b) in keys do
+      let f (l : List VCon) := l.filter fun c => (min c.left c.right, max c.left c.right) == (a, b)
+      let before := allHold (f bcx) (fun i => bpos[i]!.1) && allHold (f bcy) (fun i => bpos[i]!.2)
+      let after := allHold (f acx) (fun i => apos[i]!.1) && allHold (f acy) (fun i => apos[i]!.2)
+      if before then nsat := nsat + 1
+      if before != after then
+        acc := acc.specfail s!"transform_equivariant violated by Graph::{tfS tf}: pair ({a},{b}) satisfied before={before} after={after}; before X {vconsS (f bcx)} Y {vconsS (f bcy)} at ({ratToString bpos[a]!.1},{ratToString bpos[a]!.2}) ({ratToString bpos[b]!.1},{ratToString bpos[b]!.2}); after X {vconsS (f acx)} Y {vconsS (f acy)} at ({ratToString apos[a]!.1},{ratToString apos[a]!.2}) ({ratToString apos[b]!.1},{ratToString apos[b]!.2})"
+    acc := acc.bump "rotate.pairs" keys.length
+    acc := acc.bump "rotate.pairs.satisfied" nsat
+    return acc.result (!keys.isEmpty)
+  | _, _, _, _ => return { verdict := .diverge "constraint lines missing" }
+
 def run (args : List String) : IO UInt32 := do
   let rec flagOf : List String → String
     | "--impl-flag" :: v :: _ => v
@@ -624,7 +709,8 @@ def run (args : List String) : IO UInt32 := do
     | [] => "stale"
   let implFixed := flagOf args == "fixed"
   runCases fun c =>
-    if c.tag == "table" then checkTable c
+    if c.tag == "table" || c.tag == "pair-random" then checkTable c
+    else if c.tag == "graph-rotate" then checkRotate implFixed c
     else if c.tag == "hist-oriented" || c.tag == "flip-history" then checkHistory implFixed c
     else if c.tag == "tglf" then checkTglf implFixed false c
     else if c.tag == "tglf-fine" then checkTglf implFixed true c
